@@ -836,20 +836,28 @@ func assignments(m, k int, yield func([]int) bool) bool {
 	}
 }
 
+// kindOf names the implementation a failure class is attributed to (a merged
+// body's failure is re-attributed to one of its files when that file alone
+// fails, see judge).
 func kindOf(r Real) string {
-	switch {
-	case strings.HasPrefix(r.Kind, "json"):
+	if strings.HasPrefix(r.Kind, "json") {
 		return "json"
-	case r.Kind == "merged":
-		switch {
-		case !strings.Contains(r.Syntax, "j"):
-			return "merged-native"
-		case !strings.Contains(r.Syntax, "n"):
-			return "merged-json"
-		}
-		return "merged-mixed"
 	}
 	return r.Kind
+}
+
+// mixOf distinguishes the syntax mixes of merges in the coverage counters.
+func mixOf(r Real) string {
+	if r.Kind != "merged" {
+		return kindOf(r)
+	}
+	switch {
+	case !strings.Contains(r.Syntax, "j"):
+		return "merged-native"
+	case !strings.Contains(r.Syntax, "n"):
+		return "merged-json"
+	}
+	return "merged-mixed"
 }
 
 // runCase checks a realisation with all schemas and splits (or the pinned one).
@@ -940,7 +948,7 @@ func judge(c engine.Case) engine.Outcome {
 	if f != nil {
 		var others []string
 		for cl := range r.fails {
-			if cl != f.class && !(d.Real.Kind == "merged" && strings.HasSuffix(cl, f.class[strings.Index(f.class[4:], ".")+4:])) {
+			if cl != f.class && !(d.Real.Kind == "merged" && strings.HasSuffix(cl, f.class[strings.Index(f.class[4:], ".")+4:])) { // (not the merged twin of a re-attributed failure)
 				others = append(others, cl)
 			}
 		}
@@ -952,7 +960,7 @@ func judge(c engine.Case) engine.Outcome {
 		return engine.Fail(f.class, "content:\n%srealised as %s:\n%s\n%s\n(failing schema %s, split %v)%s", absconf.Native(d.Content), d.Real, strings.Join(texts, "\n--- next file ---\n"), f.detail, schemaString(f.schema), f.assign, more)
 	}
 	counters.Add("schema_splits", splits)
-	counters.Add("splits_"+kind, splits)
+	counters.Add("splits_"+mixOf(d.Real), splits)
 	if len(d.Content) == 0 {
 		return engine.Pass(fmt.Sprintf("%s|empty|%d", d.Real, r.sig.n))
 	}
